@@ -160,6 +160,10 @@ Inductive hop :=
 Inductive c29_case :=
 (* String() texts of two peer ids; observed: whether trackLink opened the stream with (local=a, remote=b) and with (local=b, remote=a) *)
 | Opener29 (a b : bytes) (a_opens b_opens : bool)
+(* a sequence of links (String() of the local peer, String() of the remote peer) tracked one after the
+   other by ONE controller instance (a node may host several local identities); observed: whether
+   trackLink opened the stream, per link *)
+| OpenerSeq29 (links : list (bytes * bytes)) (opened : list bool)
 (* a history; observed at each HQuiesce: the (stream, channel) pairs whose last
    written subscription entry is Subscribe=true, and all handler invocations
    (subscription, handler, message) so far *)
@@ -227,5 +231,6 @@ Fixpoint hist_run (ops : list hop) (chans : list nat) (ss : sstate) (ls : lstate
 Definition c29_agree (c : c29_case) : bool :=
   match c with
   | Opener29 a b oa ob => Bool.eqb (opens_str a b) oa && Bool.eqb (opens_str b a) ob
+  | OpenerSeq29 links opened => list_eqb Bool.eqb (map (fun lr => opens_str (fst lr) (snd lr)) links) opened
   | Hist29 ops chans obs => hist_run ops chans (SState [] [] []) (settle linit) [] obs
   end.
